@@ -22,6 +22,7 @@ type Env struct {
 	depth   int
 	lits    map[string]string // macro parameters bound to string literals (type names)
 	resAlias map[string]string // callee result names renamed since the contract was written
+	paramsEntry bool // postconditions: a parameter name denotes the value the caller passed, even if the body reassigns it
 }
 
 func (env *Env) with(st *State) *Env {
@@ -147,6 +148,13 @@ func (x *Exec) evalIdent(name string, env *Env) Val {
 	}
 	if sig, ok := e.funSig(name); ok && len(sig.args) == 0 {
 		return Val{T: name, Sort: sig.ret}
+	}
+	if env.paramsEntry && !env.closed && x.fn != nil {
+		for _, p := range x.fn.Params {
+			if p.Name() == name {
+				return x.vals[p]
+			}
+		}
 	}
 	if !env.closed && x.fn != nil {
 		if v, ok := x.lookupName(name, env.atBlock, env.st, false); ok {
